@@ -348,9 +348,10 @@ impl Strs {
 
 pub struct Bytes;
 const PAIR_BYTES: [u8; 6] = [0, 0x27, 0x5c, 0x61, 0x7f, 0xff];
+const RAW_BYTE_TEXTS: [&str; 8] = ["é", "ÿ", "\u{80}", "日", "😀", "é日", "a\u{ff}b", "\u{7ff}\u{800}"];
 impl Bytes {
     pub fn size(&self) -> u64 {
-        256 + 36
+        256 + 36 + RAW_BYTE_TEXTS.len() as u64
     }
     fn spellings(b: u8) -> Vec<String> {
         let mut v = vec![format!("\\x{:02x}", b), format!("\\X{:02X}", b), format!("\\{:03o}", b)];
@@ -371,6 +372,28 @@ impl Bytes {
                 for q in ['\'', '"'] {
                     let src = format!("b{}{}{}", q, sp, q);
                     judge(acc, "bytes-literal", &src, &Want::Val(V::Bytes(vec![b])));
+                    acc.nontrivial(&src);
+                }
+            }
+        } else if idx >= 256 + 36 {
+            // characters above U+007F written as they are: the literal holds their UTF-8 encoding
+            let t = RAW_BYTE_TEXTS[(idx - 256 - 36) as usize];
+            for q in ['\'', '"'] {
+                for (pre, post) in [("", ""), ("a", ""), ("", "\\x00"), ("\\xff", "z")] {
+                    let src = format!("b{}{}{}{}{}", q, pre, t, post, q);
+                    let mut want: Vec<u8> = Vec::new();
+                    if pre == "a" {
+                        want.push(b'a');
+                    } else if !pre.is_empty() {
+                        want.push(0xff);
+                    }
+                    want.extend(t.as_bytes());
+                    if post == "z" {
+                        want.push(b'z');
+                    } else if !post.is_empty() {
+                        want.push(0);
+                    }
+                    judge(acc, "bytes-literal with a raw non-ASCII character", &src, &Want::Val(V::Bytes(want)));
                     acc.nontrivial(&src);
                 }
             }
@@ -608,7 +631,7 @@ pub fn replay_families(t: Tier) -> Vec<Family<'static>> {
 
 pub fn run(t: Tier) -> i32 {
     let mut rep = Report::new(ID, t, "exploration");
-    rep.rule = "ints/uints: every +-2^k, +-2^k+-1 (k<=63/64) and boundary value in decimal and four hexadecimal spellings, u/U suffixes, negatives through unary minus, plus the first out-of-range magnitudes; doubles: sign x finite exponents (all 2047 in thorough) x 10 mantissa patterns x up to 7 spellings (shortest and 17-digit scientific, E/e, explicit +, plain decimal, leading/trailing dot); strings: all strings up to the length bound over 12 characters (quotes, backslash, LF, CR - so CR LF pairs occur verbatim -, TAB, NUL, brace, 2/3/4-byte UTF-8) with every applicable escape form per character, both quotes, plain/f/r prefixes; bytes: all 256 single bytes in every spelling and all pairs over 6 bytes; rejections: every proper prefix of every escape form, surrogates, code points above 10FFFF, malformed octal; sequences: all ordered pairs and triples of 24 literal spellings (int/uint extremes in decimal and hex, the minimum int with and without a blank or parentheses after the minus, doubles, strings, bytes, raw strings, a surrogate escape) inside one list literal - a sequence with a rejected literal must be rejected as a whole, otherwise it is the list of the spelled values; adjacent-operators: all ordered pairs of 16 numeric spellings (decimal, hexadecimal ending in e, u-suffixed, exponent forms) joined by each of 11 operators without blanks, with blanks and with newlines - the literal must end where the operator starts. The generator knows
+    rep.rule = "ints/uints: every +-2^k, +-2^k+-1 (k<=63/64) and boundary value in decimal and four hexadecimal spellings, u/U suffixes, negatives through unary minus, plus the first out-of-range magnitudes; doubles: sign x finite exponents (all 2047 in thorough) x 10 mantissa patterns x up to 7 spellings (shortest and 17-digit scientific, E/e, explicit +, plain decimal, leading/trailing dot); strings: all strings up to the length bound over 12 characters (quotes, backslash, LF, CR - so CR LF pairs occur verbatim -, TAB, NUL, brace, 2/3/4-byte UTF-8) with every applicable escape form per character, both quotes, plain/f/r prefixes; bytes: all 256 single bytes in every spelling, all pairs over 6 bytes, and 8 texts of characters above U+007F written raw (2-, 3- and 4-byte encodings) alone and next to escapes; rejections: every proper prefix of every escape form, surrogates, code points above 10FFFF, malformed octal; sequences: all ordered pairs and triples of 24 literal spellings (int/uint extremes in decimal and hex, the minimum int with and without a blank or parentheses after the minus, doubles, strings, bytes, raw strings, a surrogate escape) inside one list literal - a sequence with a rejected literal must be rejected as a whole, otherwise it is the list of the spelled values; adjacent-operators: all ordered pairs of 16 numeric spellings (decimal, hexadecimal ending in e, u-suffixed, exponent forms) joined by each of 11 operators without blanks, with blanks and with newlines - the literal must end where the operator starts. The generator knows
  the value it spelled; the result must equal it bit for bit (or be a syntax error for the rejection set). Every case is non-trivial; distinct by source text".to_string();
     for f in replay_families(t) {
         rep.run_family(f);
